@@ -22,6 +22,22 @@ Vals == <<
    Obj(<<"x">>, <<N(6)>>)
 >>
 
+(* extra values for the extended universe (formats etc.; no oracle there) *)
+VX == << S(<<"2","0","2","0","-","0","1","-","0","1">>),
+         S(<<"2","0","2","0","-","0","1","-","0","1","T","0","0",":","0","0",":","0","0","Z">>),
+         S(<<"a","b","c","=">>), N(8000), Obj(<<"x">>, <<S(<<"k">>)>>) >>
+
+(* C19: the same shapes with a unique marker string at every string leaf; "Mq<d>" occurs *)
+(* in no schema text of the universe (checked by MarkerDiscipline in MC_C19).            *)
+Mk(d) == S(<<"M", "q", d>>)
+MkLong(d) == S(<<"M", "q", d, "x", "x", "x">>)
+MVals == <<
+   Mk("0"), MkLong("1"), Arr(<<Mk("2")>>), Arr(<<Mk("3"), Mk("3")>>), Arr(<<One, Mk("4")>>),
+   Arr(<<Mk("5"), Mk("6"), Mk("7")>>), Obj(<<"x">>, <<Mk("8")>>), Obj(<<"x", "y">>, <<Mk("9"), One>>),
+   Obj(<<"x">>, <<Arr(<<Mk("a")>>)>>), Obj(<<"x", "y", "z">>, <<One, Mk("b"), Null>>),
+   Arr(<<Obj(<<"x">>, <<Mk("c")>>)>>), Obj(<<"y">>, <<Mk("d")>>), Obj(<<"x">>, <<Obj(<<"x">>, <<Mk("e")>>)>>),
+   Arr(<<Arr(<<Mk("f")>>)>>), Obj(<<"x", "y">>, <<Mk("g"), Mk("h")>>) >>
+
 Atom(f, x) == [f |-> f, x |-> x]
 
 (* compositions and containers over small fixed sub-schemas, usable as keywords of one level *)
@@ -50,6 +66,11 @@ Atoms ==
    \cup {Atom("required", r) : r \in {<<"x">>, <<"x", "y">>}}
    \cup CombAtoms
 
+(* features outside the reference evaluator: only relational judgements (C12, C19) *)
+ExtAtoms ==
+   {Atom("format", f) : f \in {"date", "date-time", "byte", "int32", "int64", "no-such-format"}}
+   \cup {Atom("pattern", "^[a-z]+$"), Atom("pattern", "("), Atom("disc", "x")}
+
 (* keywords an outer (wrapping) level may add next to the wrapped schema *)
 OuterAtoms ==
    {Atom("type", t) : t \in {"array", "object", "integer"}}
@@ -66,6 +87,7 @@ CanAdd(s, a) ==
    /\ ~Has(s, a.f)
    /\ a.f = "exclusiveMinimum" => Has(s, "minimum")
    /\ a.f = "exclusiveMaximum" => Has(s, "maximum")
+   /\ a.f = "disc" => Has(s, "oneOf")            \* discriminator only next to oneOf
    /\ a.f = "apFalse" => ~Has(s, "apSchema")      \* additionalProperties is one or the other
    /\ a.f = "apSchema" => ~Has(s, "apFalse")
 
